@@ -271,6 +271,13 @@ def run(case):
                     fails.append(f"uncertainty became {type(cur.uncertainty).__name__}")
                 elif exp is not None and not np.allclose(cur.uncertainty.array, np.broadcast_to(exp, cur.uncertainty.array.shape), rtol=1e-12):
                     fails.append(f"standard deviations {np.asarray(cur.uncertainty.array).ravel()[:4]}, expected the source's scaled by |k|: {np.asarray(exp).ravel()[:4]}")
+            # sums and negation leave an uncertainty of any kind exactly as it is
+            if case["unc"] and all(o["op"] in ("add", "radd", "sub", "rsub", "neg") for o in case["ops"]):
+                if cur.uncertainty is None or type(cur.uncertainty) is not type(cube.uncertainty):
+                    fails.append(f"uncertainty became {type(cur.uncertainty).__name__} after sums / negation only")
+                elif not np.array_equal(np.asarray(cur.uncertainty.array), np.asarray(cube.uncertainty.array)):
+                    fails.append(f"uncertainty ({case['unc']}) changed by sums / negation: {np.asarray(cur.uncertainty.array).ravel()[:4]} "
+                                 f"from {np.asarray(cube.uncertainty.array).ravel()[:4]}")
             # identities
             if case["identity"] in ("add-sub", "mul-div", "neg-neg"):
                 back = quantity_of(cur)
